@@ -102,7 +102,7 @@ func cmdCheck(args []string) int {
 	solver := fs.String("solver", "z3", "solver back end")
 	only := fs.String("only", "", "run only entries whose name contains this")
 	verbose := fs.Bool("v", false, "verbose")
-	conformN := fs.Int("conform", -1, "per entry, replay this many completed paths natively and compare the labels met (default: 0 quick, 8 thorough)")
+	conformN := fs.Int("conform", -1, "per entry, replay this many completed paths natively and compare the labels met (default: 3 quick, 8 thorough)")
 	noReplay := fs.Bool("noreplay", false, "skip native replay (debugging only; violations then count as unconfirmed)")
 	fs.Parse(args[1:])
 	id := args[0]
@@ -174,7 +174,7 @@ func cmdCheck(args []string) int {
 		}
 	}()
 	if *conformN < 0 {
-		*conformN = 0
+		*conformN = 3
 		if *tier == "thorough" {
 			*conformN = 8
 		}
